@@ -11,7 +11,7 @@ over the run-time library `lean/PyamgV/Model/ExtPyRt.lean` (`PyVal` = none | boo
 rational) | str | list | tuple | dict (association list, string keys) | obj (opaque, compared by
 identity); `PyM = Except PyErr`, `PyErr.cls` = the Python exception class).  `Proofs/ExtPy*.lean` prove
 theorems about exactly these generated definitions (restated in `Props/C04.lean` / `Props/C05.lean`),
-and the driver ops `ext_py_call` / `ext_py_flag` (`Driver/ExtE31.lean`) execute them, so that
+and the driver op `ext_py_call` (`Driver/ExtE31.lean`) executes them, so that
 `harness/props/c04.py` / `c05.py` can compare them with the real functions on generated option values.
 
 The tie this gives
@@ -46,7 +46,13 @@ expressions: constants None / True / False / int / float (dyadic) / str; names (
              `outer.inner`); methods `.get(k[, d]) .items() .keys() .values() .startswith(p)
              .endswith(p)`; list / dict comprehensions with one `for` and optional `if`s.
 scoping    : every local is definitely assigned before it is read on every path (otherwise
-             `Unsupported: may be unbound`); comprehension variables are local to the comprehension.
+             `Unsupported: may be unbound`; a loop body starts from what was defined before the loop, and
+             nothing assigned in the body counts after the loop); comprehension variables are local to the
+             comprehension.  Consequently a local that is assigned only directly inside loop bodies is
+             declared inside the body (it carries no value from one iteration to the next), and a `for`
+             variable that is read only inside its loop is a plain binder.
+shapes     : `if c: x = a` / `else: x = b` is emitted as one conditional binding `x <- if c then a else b`;
+             every other statement maps to the `do`-statement of the same name.
 
 Slicing (`Target.slice`)
 ------------------------
@@ -770,9 +776,10 @@ class FnTranslator:
             v, _ = self.val(st.value, env)
             if isinstance(st.op, ast.Add):
                 # `x += y` on a list extends it (with any iterable), otherwise it is `x = x + y`
-                term = f'(← (match {cur} with | PyVal.list _ => pyExtend {cur} {v} | _ => pyAdd {cur} {v}))'
-            else:
-                term = self.act(f'{BIN[type(st.op)]} {cur} {v}')
+                av = self.fresh('av')
+                term = f'(← (match {cur} with | PyVal.list _ => pyExtend {cur} {av} | _ => pyAdd {cur} {av}))'
+                return [f'{ind}let {av} := {v}'] + self.assign_name(st.target.id, term, ind), defined
+            term = self.act(f'{BIN[type(st.op)]} {cur} {v}')
             return self.assign_name(st.target.id, term, ind), defined
         if isinstance(st, ast.Return):
             if st.value is None:
@@ -1131,12 +1138,10 @@ def _compiles(text):
     tmp.mkdir(parents=True, exist_ok=True)
     f = tmp / 'Candidate.lean'
     f.write_text(text)
+    # the run-time library must be built (and current) before the candidate can be elaborated against it
+    subprocess.run(['lake', 'build', 'PyamgV.Model.ExtPyRt'], cwd=LEAN, capture_output=True, text=True, timeout=1200)
     p = subprocess.run(['lake', 'env', 'lean', str(f)], cwd=LEAN, capture_output=True, text=True, timeout=600)
     out = p.stdout + p.stderr
-    if 'unknown module prefix' in out or "unknown package" in out or 'object file' in out and 'does not exist' in out:
-        subprocess.run(['lake', 'build', 'PyamgV.Model.ExtPyRt'], cwd=LEAN, capture_output=True, text=True, timeout=1200)
-        p = subprocess.run(['lake', 'env', 'lean', str(f)], cwd=LEAN, capture_output=True, text=True, timeout=600)
-        out = p.stdout + p.stderr
     lines = {int(m.group(1)) for m in re.finditer(r'Candidate\.lean:(\d+):\d+: error', out)}
     return p.returncode == 0, lines, out
 
